@@ -104,7 +104,8 @@ func runC03(c *Ctx) {
 				n := 0
 				for _, caller := range p.LibFuncs() {
 					for _, ci := range allCalls(caller) {
-						if ci.Common().StaticCallee() != fn {
+						// (by name: with test variants loaded a library function exists once per package variant)
+						if sc := ci.Common().StaticCallee(); sc == nil || (sc != fn && fnName(sc) != fnName(fn)) {
 							continue
 						}
 						n++
